@@ -255,6 +255,14 @@ def bytes_len(ctx, fi, expr, subst=None, depth=0):
                 except NotConst:
                     pass
                 lst = n.args[0]
+                if isinstance(lst, ast.Name):
+                    # a list that is also grown by append/extend/+= is not the literal it was bound to
+                    for m in ctx.own_nodes(fi):
+                        if isinstance(m, ast.Call) and isinstance(m.func, ast.Attribute) and m.func.attr in ('append', 'extend', 'insert') \
+                                and isinstance(m.func.value, ast.Name) and m.func.value.id == lst.id:
+                            raise Unknown()
+                        if isinstance(m, ast.AugAssign) and isinstance(m.target, ast.Name) and m.target.id == lst.id:
+                            raise Unknown()
                 if isinstance(lst, ast.Name) and lst.id in sdefs:
                     lst = sdefs[lst.id]
                 if sep == b'' and isinstance(lst, (ast.List, ast.Tuple)):
